@@ -25,7 +25,7 @@ Qed.
 Lemma certgen_issued st now lim q u c :
   certgen expand st now lim q = Issued u c ->
   s_sealed st = false /\
-  exists level iat, check_auth now lim bAny (auth_request q) = Admit u level iat /\
+  exists level iat, check_auth now lim bAny (auth_request st q) = Admit u level iat /\
     sufficient (s_cfg st) level = true /\ s_name st u = q_target q /\ q_method q = HPost /\
     q_form_ok q = true /\
     (q_type q = TSsh /\ ssh_cert expand st u (s_name st u) q = Issued u c \/
@@ -33,7 +33,7 @@ Lemma certgen_issued st now lim q u c :
      q_type q = TKube /\ x509_cert st u (s_name st u) q true = Issued u c).
 Proof.
   unfold certgen. destruct (s_sealed st); [discriminate|].
-  destruct (check_auth now lim bAny (auth_request q)) as [a level iat|code] eqn:CA; [|discriminate].
+  destruct (check_auth now lim bAny (auth_request st q)) as [a level iat|code] eqn:CA; [|discriminate].
   destruct (sufficient (s_cfg st) level) eqn:S; simpl; [|discriminate].
   destruct (bs_eqb (s_name st a) (q_target q)) eqn:T; simpl; [|discriminate].
   apply bs_eqb_eq in T.
@@ -50,7 +50,7 @@ Qed.
 Theorem certgen_sound st now lim q u c :
   certgen expand st now lim q = Issued u c ->
   s_sealed st = false /\
-  (exists level, proves now q u level /\ qualifies (s_cfg st) level) /\
+  (exists level, proves st now q u level /\ qualifies (s_cfg st) level) /\
   q_target q = s_name st u /\ q_method q = HPost.
 Proof.
   intro H. apply certgen_issued in H. destruct H as [S [level [iat [CA [SU [T [M _]]]]]]].
@@ -89,17 +89,21 @@ Theorem ip_certificate_needs_peer_inside st now lim q blocks cn c u d :
 Proof.
   intros TL KM H. apply certgen_issued in H. destruct H as [_ [level [iat [CA _]]]].
   rewrite check_auth_any_eq in CA. unfold check_auth_any in CA.
-  cbn [auth_request on_conn r_get r_origin r_tls r_cred q_method q_origin q_tls q_cred] in CA.
-  rewrite TL in CA.
-  set (c' := with_ip_valid c (ip_valid blocks cn)) in CA.
+  cbn [auth_request r_get r_origin r_tls r_cred] in CA.
+  set (c' := with_ip_valid c (ip_valid blocks cn)).
+  assert (TL' : q_tls (on_conn q blocks cn) = Some c') by (cbn [on_conn q_tls]; rewrite TL; reflexivity).
   assert (KM' : km_signed c' = None) by exact KM.
-  destruct (if match q_method q with HGet => true | _ => false end then None
-            else match q_origin q with BadOrigin => Some (Refuse 400) | CrossOrigin => Some (Refuse 401) | _ => None end) as [x|] eqn:CS.
-  - destruct (q_method q); destruct (q_origin q); try discriminate; inversion CS; subst; discriminate.
-  - rewrite KM' in CA. destruct (ip_restricted c') eqn:IP; try discriminate.
-    apply ip_restricted_ok in IP. destruct IP as [_ [V _]]. unfold c' in V. cbn in V.
+  assert (G : ip_restricted c' = IpOk -> exists l b, blocks = Some l /\ In b l /\ in_block (n_peer cn) b = true).
+  { intro IP. apply ip_restricted_ok in IP. destruct IP as [_ [V _]]. unfold c' in V. cbn in V.
     unfold ip_valid in V. destruct blocks as [l|]; [|discriminate].
-    apply existsb_exists in V. destruct V as [b [Hb Hin]]. exists l, b. auto.
+    apply existsb_exists in V. destruct V as [b [Hb Hin]]. exists l, b. auto. }
+  destruct (csrf_cases (on_conn q blocks cn)) as [[code E]|E]; rewrite E in CA; [discriminate|].
+  unfold effective_tls in CA. rewrite TL' in CA.
+  destruct (s_name st (c_cn c')) as [|n0 nr] eqn:NM.
+  - destruct (ip_restricted c') eqn:IP; [apply G; reflexivity| |];
+      (destruct (tls_result_nameless now c') as [code2 E2]; [rewrite IP; discriminate|];
+       unfold tls_result in E2; rewrite E2 in CA; discriminate).
+  - rewrite KM' in CA. destruct (ip_restricted c') eqn:IP; try discriminate. apply G. reflexivity.
 Qed.
 
 (* a credential that proves only the password factor does not qualify unless "password" is listed *)
@@ -113,7 +117,7 @@ Qed.
 
 Theorem password_only_refused st now lim q :
   ~ In sPassword (s_cfg st) ->
-  (forall u level, proves now q u level -> level = bPassword) ->
+  (forall u level, proves st now q u level -> level = bPassword) ->
   exists code, certgen expand st now lim q = Refused code.
 Proof.
   intros NP OnlyPw. destruct (certgen expand st now lim q) as [u c|code] eqn:E; [|eauto].
@@ -122,19 +126,19 @@ Proof.
 Qed.
 
 (* the concrete case of the statement: a valid password-only session, only second factors listed *)
-Theorem password_session_401 st now lim q t :
+Theorem password_session_401 st now lim q w :
   s_sealed st = false -> ~ In sPassword (s_cfg st) ->
-  q_tls q = None -> q_cred q = Cookie t -> valid_session now t -> t_level t = bPassword ->
+  q_tls q = None -> q_cookie q = Some w -> valid_session (issuer_of st) now w -> w_level w = bPassword ->
   q_origin q = NoOrigin \/ q_origin q = SameOrigin \/ q_method q = HGet ->
   certgen expand st now lim q = Refused 401.
 Proof.
   intros S NP TL C V L O. unfold certgen. rewrite S, check_auth_any_eq. unfold check_auth_any.
-  cbn [auth_request r_get r_origin r_tls r_cred]. rewrite TL, C.
+  cbn [auth_request r_get r_origin r_tls r_cred]. unfold carried_cred. rewrite (effective_tls_none st q TL), C.
   assert (CS : (if match q_method q with HGet => true | _ => false end then None
                 else match q_origin q with BadOrigin => Some (Refuse 400) | CrossOrigin => Some (Refuse 401) | _ => None end) = None).
   { destruct O as [ -> | [ -> | -> ] ]; destruct (q_method q); reflexivity. }
   rewrite CS. unfold cookie_branch_any. apply token_ok_valid in V. destruct V as [V1 V2].
-  rewrite V1, V2, L. simpl.
+  rewrite V1. cbn [t_exp t_level t_sub t_iat token_of]. rewrite V2, L. simpl.
   assert (SF : sufficient (s_cfg st) bPassword = false).
   { apply sufficient_false_iff. apply password_level_not_qualified. exact NP. }
   rewrite SF. reflexivity.
@@ -161,7 +165,7 @@ Theorem refused_is_error st now lim q code :
   certgen expand st now lim q = Refused code -> 400 <= code.
 Proof.
   unfold certgen. destruct (s_sealed st); [intro H; inversion H; vm_compute; discriminate|].
-  destruct (check_auth now lim bAny (auth_request q)) as [a level iat|c] eqn:CA.
+  destruct (check_auth now lim bAny (auth_request st q)) as [a level iat|c] eqn:CA.
   - destruct (sufficient (s_cfg st) level); simpl; [|intro H; inversion H; vm_compute; discriminate].
     destruct (bs_eqb (s_name st a) (q_target q)); simpl; [|intro H; inversion H; vm_compute; discriminate].
     destruct (q_method q); try (intro H; inversion H; vm_compute; discriminate).
@@ -176,7 +180,7 @@ Qed.
 
 Theorem everything_else_refused st now lim q :
   ~ (s_sealed st = false /\ q_method q = HPost /\
-     exists u level, proves now q u level /\ qualifies (s_cfg st) level /\ q_target q = s_name st u) ->
+     exists u level, proves st now q u level /\ qualifies (s_cfg st) level /\ q_target q = s_name st u) ->
   exists code, certgen expand st now lim q = Refused code /\ 400 <= code.
 Proof.
   intro N. destruct (certgen expand st now lim q) as [u c|code] eqn:E.
@@ -206,7 +210,7 @@ Variable expand : bs -> bs -> option bs.
 (* once checkAuth lets (u, level) through: qualification, the right target and an orderly request
    are enough *)
 Lemma after_auth st now lim q u level iat :
-  check_auth now lim bAny (auth_request q) = Admit u level iat ->
+  check_auth now lim bAny (auth_request st q) = Admit u level iat ->
   qualifies (s_cfg st) level -> q_target q = s_name st u -> servable expand st q (s_name st u) ->
   exists c, certgen expand st now lim q = Issued u c.
 Proof.
@@ -234,42 +238,45 @@ Lemma csrf_pass q :
    else match q_origin q with BadOrigin => Some (Refuse 400) | CrossOrigin => Some (Refuse 401) | _ => None end) = None.
 Proof. intros -> [ -> | -> ]; reflexivity. Qed.
 
-Theorem complete_session st now lim q t :
-  servable expand st q (s_name st (t_sub t)) ->
-  q_tls q = None -> q_cred q = Cookie t -> valid_session now t -> N.land (t_level t) bAny <> 0 ->
-  qualifies (s_cfg st) (t_level t) -> q_target q = s_name st (t_sub t) ->
-  exists c, certgen expand st now lim q = Issued (t_sub t) c.
+(* a valid qualifying session is served whatever Basic header comes with it *)
+Theorem complete_session st now lim q w :
+  servable expand st q (s_name st (w_sub w)) ->
+  q_tls q = None -> q_cookie q = Some w -> valid_session (issuer_of st) now w -> N.land (w_level w) bAny <> 0 ->
+  qualifies (s_cfg st) (w_level w) -> q_target q = s_name st (w_sub w) ->
+  exists c, certgen expand st now lim q = Issued (w_sub w) c.
 Proof.
-  intros SV TL C V L Q T. eapply after_auth with (iat := t_iat t); eauto.
+  intros SV TL C V L Q T. eapply after_auth with (iat := w_iat w); eauto.
   rewrite check_auth_any_eq. unfold check_auth_any. cbn [auth_request r_get r_origin r_tls r_cred].
-  destruct SV as [_ [M [O _]]]. rewrite (csrf_pass q M O), TL, C. unfold cookie_branch_any.
-  apply token_ok_valid in V. destruct V as [V1 V2]. rewrite V1, V2. simpl.
+  destruct SV as [_ [M [O _]]]. unfold carried_cred. rewrite (csrf_pass q M O), (effective_tls_none st q TL), C. unfold cookie_branch_any.
+  apply token_ok_valid in V. destruct V as [V1 V2]. rewrite V1. cbn [t_exp t_level t_sub t_iat token_of]. rewrite V2. simpl.
   unfold hasb. apply N.eqb_neq in L. rewrite L. reflexivity.
 Qed.
 
-Theorem complete_password st now q u :
-  servable expand st q (s_name st u) ->
-  q_tls q = None -> q_cred q = Basic u true false ->
-  qualifies (s_cfg st) bPassword -> q_target q = s_name st u ->
-  exists c, certgen expand st now true q = Issued u c.
+(* a good password is served when the request carries neither a client certificate nor any
+   auth_cookie (a cookie, even a worthless one, is what checkAuth goes by) *)
+Theorem complete_password st now q b :
+  servable expand st q (s_name st (b_user b)) ->
+  q_tls q = None -> q_cookie q = None -> q_basic q = Some b -> b_ok b = true -> b_err b = false ->
+  qualifies (s_cfg st) bPassword -> q_target q = s_name st (b_user b) ->
+  exists c, certgen expand st now true q = Issued (b_user b) c.
 Proof.
-  intros SV TL C Q T. eapply after_auth with (iat := now); eauto.
+  intros SV TL C B OK ER Q T. eapply after_auth with (iat := now); eauto.
   rewrite check_auth_any_eq. unfold check_auth_any. cbn [auth_request r_get r_origin r_tls r_cred].
-  destruct SV as [_ [M [O _]]]. rewrite (csrf_pass q M O), TL, C. reflexivity.
+  destruct SV as [_ [M [O _]]]. unfold carried_cred. rewrite (csrf_pass q M O), (effective_tls_none st q TL), C, B. simpl. rewrite ER, OK. reflexivity.
 Qed.
 
 Theorem complete_cert st now lim q c :
   servable expand st q (s_name st (c_cn c)) ->
-  q_tls q = Some c ->
+  q_tls q = Some c -> names_somebody st c ->
   (keymaster_cert c /\ qualifies (s_cfg st) bKMX509) \/ (ip_cert_ok c /\ qualifies (s_cfg st) bIPCert) ->
   q_target q = s_name st (c_cn c) ->
   exists d, certgen expand st now lim q = Issued (c_cn c) d.
 Proof.
-  intros SV TL H T.
-  assert (CA : exists level iat, check_auth now lim bAny (auth_request q) = Admit (c_cn c) level iat /\
+  intros SV TL NS H T.
+  assert (CA : exists level iat, check_auth now lim bAny (auth_request st q) = Admit (c_cn c) level iat /\
                                  qualifies (s_cfg st) level).
-  { rewrite check_auth_any_eq. unfold check_auth_any. cbn [auth_request r_get r_origin r_tls r_cred].
-    destruct SV as [_ [M [O _]]]. rewrite (csrf_pass q M O), TL.
+  { rewrite (check_auth_with_cert st now lim q c TL NS).
+    destruct SV as [_ [M [O _]]]. rewrite (csrf_pass q M O). unfold tls_result.
     destruct H as [[K Q]|[I Q]].
     - rewrite (km_signed_complete c K). destruct (ip_restricted c); eexists; eexists; (split; [reflexivity|]); auto.
       eapply qualifies_mono; [|exact Q]. intros f. apply carries_lor_l.
@@ -287,8 +294,8 @@ Definition strict_witness (shp : N) : Prop :=
   let st := case_server false [sPassword] in
   let q := case_req s 0 0 in
   (exists u c, certgen no_expand st 0%Z true q = Issued u c) /\
-  (exists u level, proves 0%Z q u level) /\
-  forall u level, proves 0%Z q u level -> ~ qualifies_strict (s_cfg st) level.
+  (exists u level, proves st 0%Z q u level) /\
+  forall u level, proves st 0%Z q u level -> ~ qualifies_strict (s_cfg st) level.
 
 Lemma not_strict_password level :
   N.testbit level 3 = false -> N.testbit level 1 = false -> ~ qualifies_strict [sPassword] level.
@@ -299,25 +306,28 @@ Proof.
   - destruct I as [<-|[]]. inversion A.
 Qed.
 
+Ltac closed_facts := vm_compute; repeat split; try reflexivity; try discriminate; try (eexists; reflexivity).
+
 Theorem strict_refuted : strict_witness 7 /\ strict_witness 15 /\ strict_witness 56.
 Proof.
   repeat split.
   - eexists; eexists; vm_compute; reflexivity.
-  - exists 1, bFederated. eapply P_session; [reflexivity| |reflexivity|reflexivity].
-    vm_compute. repeat split; discriminate.
-  - intros u level P. simpl. inversion P as [t C V E1 E2|C E|c C|c C|c C]; try discriminate.
-    vm_compute in C. inversion C. subst t. subst level. apply not_strict_password; reflexivity.
-  - eexists; eexists; vm_compute; reflexivity.
-  - exists 1, bCLI. eapply P_session; [reflexivity| |reflexivity|reflexivity].
-    vm_compute. repeat split; discriminate.
-  - intros u level P. simpl. inversion P as [t C V E1 E2|C E|c C|c C|c C]; try discriminate.
-    vm_compute in C. inversion C. subst t. subst level. apply not_strict_password; reflexivity.
-  - eexists; eexists; vm_compute; reflexivity.
-  - exists 3, bIPCert. eapply P_ip_cert; [reflexivity| |reflexivity|reflexivity].
-    vm_compute. repeat split; discriminate.
+  - exists 1, bFederated. eapply P_session; [reflexivity| |reflexivity|reflexivity]. closed_facts.
   - intros u level P. simpl.
-    inversion P as [t C V E1 E2|C E|c C K E1 E2|c C I E1 E2|c C K I E1 E2]; try discriminate;
-      vm_compute in C; inversion C; subst c.
+    inversion P as [w C V E1 E2|b C OK ER E1 E2|c C NS K E1 E2|c C NS I E1 E2|c C NS K I E1 E2];
+      vm_compute in C; try discriminate.
+    inversion C. subst w. subst level. apply not_strict_password; reflexivity.
+  - eexists; eexists; vm_compute; reflexivity.
+  - exists 1, bCLI. eapply P_session; [reflexivity| |reflexivity|reflexivity]. closed_facts.
+  - intros u level P. simpl.
+    inversion P as [w C V E1 E2|b C OK ER E1 E2|c C NS K E1 E2|c C NS I E1 E2|c C NS K I E1 E2];
+      vm_compute in C; try discriminate.
+    inversion C. subst w. subst level. apply not_strict_password; reflexivity.
+  - eexists; eexists; vm_compute; reflexivity.
+  - exists 3, bIPCert. eapply P_ip_cert; [reflexivity| | |reflexivity|reflexivity]; [vm_compute; discriminate|closed_facts].
+  - intros u level P. simpl.
+    inversion P as [w C V E1 E2|b C OK ER E1 E2|c C NS K E1 E2|c C NS I E1 E2|c C NS K I E1 E2];
+      vm_compute in C; try discriminate; inversion C; subst c.
     + destruct K as [_ [K _]]. exfalso. apply K. reflexivity.
     + subst level. apply not_strict_password; reflexivity.
     + destruct K as [_ [K _]]. exfalso. apply K. reflexivity.
@@ -338,4 +348,178 @@ Qed.
 Lemma old_krb_refuted : exists realm user, krb_san_old realm user <> Some (realm, user).
 Proof.
   exists [69;88;65;77;80;76;69;46;67;79;77], (repeat 117 100). vm_compute. discriminate.
+Qed.
+
+(* ---- combined credentials: a client certificate, a session cookie and a Basic header in one request *)
+Section Combined.
+Variable expand : bs -> bs -> option bs.
+
+(* When a client certificate is presented, a certificate comes back only if the CERTIFICATE's own
+   identity and level qualify: no cookie of whatever state (valid, expired, foreign) and no Basic
+   header adds anything to it. *)
+Theorem certificate_decides st now lim q c u d :
+  q_tls q = Some c -> names_somebody st c -> certgen expand st now lim q = Issued u d ->
+  exists level, cert_proves st q u level /\ qualifies (s_cfg st) level.
+Proof.
+  intros TL NS H. apply certgen_issued in H. destruct H as [_ [level [iat [CA [SU _]]]]].
+  rewrite (check_auth_with_cert st now lim q c TL NS) in CA.
+  destruct (csrf_cases q) as [[code E]|E]; rewrite E in CA; [discriminate|].
+  exists level. split; [eapply tls_result_sound; eauto|apply sufficient_iff; exact SU].
+Qed.
+
+(* ... and the answer is the same whatever cookie and Basic header accompany the certificate *)
+Theorem credentials_beside_certificate_ignored st now lim lim' q c ck b ck' b' :
+  q_tls q = Some c -> names_somebody st c ->
+  certgen expand st now lim (with_creds q ck b) = certgen expand st now lim' (with_creds q ck' b').
+Proof.
+  intros TL NS. unfold certgen.
+  rewrite (check_auth_with_cert st now lim (with_creds q ck b) c TL NS).
+  rewrite (check_auth_with_cert st now lim' (with_creds q ck' b') c TL NS).
+  reflexivity.
+Qed.
+
+(* A certificate whose common name is the empty string is no identity: a certificate comes back only
+   when the address test accepts the certificate, and then exactly as if the request had been made
+   without it (the cookie / Basic header decide). *)
+Theorem nameless_certificate_no_identity st now lim q c :
+  q_tls q = Some c -> s_name st (c_cn c) = [] ->
+  (ip_restricted c = IpOk /\ certgen expand st now lim q = certgen expand st now lim (without_tls q)) \/
+  (ip_restricted c <> IpOk /\ exists code, certgen expand st now lim q = Refused code /\ 400 <= code).
+Proof.
+  intros TL NM. destruct (ip_restricted c) eqn:IP.
+  - left. split; [reflexivity|]. unfold certgen, auth_request, effective_tls. cbn [q_tls without_tls].
+    rewrite TL, NM, IP. reflexivity.
+  - right. split; [discriminate|].
+    destruct (certgen expand st now lim q) as [u d|code] eqn:E.
+    + exfalso. apply certgen_issued in E. destruct E as [_ [level [iat [CA _]]]].
+      rewrite check_auth_any_eq in CA. unfold check_auth_any in CA. cbn [auth_request r_get r_origin r_tls r_cred] in CA.
+      unfold effective_tls in CA. rewrite TL, NM, IP in CA.
+      destruct (csrf_cases q) as [[code E]|E]; rewrite E in CA; [discriminate|].
+      destruct (tls_result_nameless now c) as [code E2]; [rewrite IP; discriminate|].
+      unfold tls_result in E2. rewrite E2 in CA. discriminate.
+    + exists code. split; [reflexivity|eapply refused_is_error; eauto].
+  - right. split; [discriminate|].
+    destruct (certgen expand st now lim q) as [u d|code] eqn:E.
+    + exfalso. apply certgen_issued in E. destruct E as [_ [level [iat [CA _]]]].
+      rewrite check_auth_any_eq in CA. unfold check_auth_any in CA. cbn [auth_request r_get r_origin r_tls r_cred] in CA.
+      unfold effective_tls in CA. rewrite TL, NM, IP in CA.
+      destruct (csrf_cases q) as [[code E]|E]; rewrite E in CA; [discriminate|].
+      destruct (tls_result_nameless now c) as [code E2]; [rewrite IP; discriminate|].
+      unfold tls_result in E2. rewrite E2 in CA. discriminate.
+    + exists code. split; [reflexivity|eapply refused_is_error; eauto].
+Qed.
+
+Lemma token_ok_own_issuer issuer now w :
+  token_ok now (token_of issuer w) = true -> w_iss w = issuer /\ exists rest, w_aud w = issuer :: rest.
+Proof.
+  unfold token_ok, token_of. cbn. rewrite !andb_true_iff, bs_eqb_eq, aud0_is_spec. tauto.
+Qed.
+
+(* Without a client certificate a request that carries an auth_cookie is judged by that cookie alone
+   (whatever the Basic header says): a certificate comes back only if the cookie is a currently valid
+   session of the server's OWN issuer - iss equal to the issuer string, the first audience equal to
+   it - for the user named. *)
+Theorem session_issuer_exact st now lim q w u d :
+  q_tls q = None -> q_cookie q = Some w -> certgen expand st now lim q = Issued u d ->
+  w_iss w = issuer_of st /\ (exists rest, w_aud w = issuer_of st :: rest) /\
+  valid_session (issuer_of st) now w /\ u = w_sub w /\ qualifies (s_cfg st) (w_level w).
+Proof.
+  intros TL C H. apply certgen_issued in H. destruct H as [_ [level [iat [CA [SU _]]]]].
+  rewrite check_auth_any_eq in CA. unfold check_auth_any in CA.
+  cbn [auth_request r_get r_origin r_tls r_cred] in CA. unfold carried_cred in CA. rewrite (effective_tls_none st q TL), C in CA.
+  destruct (csrf_cases q) as [[code E]|E]; rewrite E in CA; [discriminate|].
+  unfold cookie_branch_any in CA.
+  destruct (token_ok now (token_of (issuer_of st) w)) eqn:T; simpl in CA; [|discriminate].
+  cbn [t_exp t_level t_sub t_iat token_of] in CA.
+  destruct (w_exp w <? now)%Z eqn:X; [discriminate|].
+  destruct (hasb (w_level w) bAny); simpl in CA; [|discriminate].
+  inversion CA; subst.
+  destruct (token_ok_own_issuer _ _ _ T) as [I A].
+  split; [exact I|]. split; [exact A|]. split; [apply token_ok_valid; auto|].
+  split; [reflexivity|apply sufficient_iff; exact SU].
+Qed.
+
+Corollary foreign_session_refused st now lim q w :
+  q_tls q = None -> q_cookie q = Some w ->
+  (w_iss w <> issuer_of st \/ forall rest, w_aud w <> issuer_of st :: rest) ->
+  exists code, certgen expand st now lim q = Refused code /\ 400 <= code.
+Proof.
+  intros TL C NE. destruct (certgen expand st now lim q) as [u d|code] eqn:E.
+  - exfalso. destruct (session_issuer_exact _ _ _ _ _ _ _ TL C E) as [I [[rest A] _]].
+    destruct NE as [NE|NE]; [exact (NE I)|exact (NE rest A)].
+  - exists code. split; [reflexivity|eapply refused_is_error; eauto].
+Qed.
+End Combined.
+
+(* ---- the decision procedure `entitled` (Model/CertgenCases.v) decides the specification *)
+Lemma keymaster_cert_b_iff c : keymaster_cert_b c = true <-> keymaster_cert c.
+Proof.
+  unfold keymaster_cert_b, keymaster_cert. rewrite !andb_true_iff, !negb_true_iff.
+  destruct (c_issuer c); split; intros [[[A B] C] D] || intros [A [B [C D]]]; repeat split; auto; try discriminate.
+  exfalso. apply B. reflexivity.
+Qed.
+
+Lemma ip_cert_ok_b_iff c : ip_cert_ok_b c = true <-> ip_cert_ok c.
+Proof.
+  unfold ip_cert_ok_b, ip_cert_ok. rewrite !andb_true_iff, !negb_true_iff. tauto.
+Qed.
+
+Lemma proved_levels_iff st now q u level :
+  In level (proved_levels st now q u) <-> proves st now q u level.
+Proof.
+  unfold proved_levels. rewrite !in_app_iff. split.
+  - intros [H|[H|H]].
+    + destruct (q_cookie q) as [w|] eqn:C; [|destruct H].
+      destruct (valid_session_b (issuer_of st) now w && (w_sub w =? u)) eqn:V; [|destruct H].
+      apply andb_true_iff in V. destruct V as [V U]. apply valid_session_b_iff in V. apply N.eqb_eq in U.
+      destruct H as [<-|[]]. eapply P_session; eauto.
+    + destruct (q_basic q) as [b|] eqn:B; [|destruct H].
+      destruct (b_ok b && negb (b_err b) && (b_user b =? u)) eqn:V; [|destruct H].
+      apply andb_true_iff in V. destruct V as [V U]. apply andb_true_iff in V. destruct V as [O E].
+      apply negb_true_iff in E. apply N.eqb_eq in U. destruct H as [<-|[]]. eapply P_password; eauto.
+    + destruct (q_tls q) as [c|] eqn:TL; [|destruct H].
+      destruct ((c_cn c =? u) && negb (bs_eqb (s_name st u) [])) eqn:U; [|destruct H].
+      apply andb_true_iff in U. destruct U as [U NM]. apply N.eqb_eq in U. apply negb_true_iff, bs_eqb_neq in NM.
+      assert (NS : names_somebody st c) by (unfold names_somebody; rewrite U; exact NM).
+      rewrite !in_app_iff in H. destruct H as [H|[H|H]].
+      * destruct (keymaster_cert_b c) eqn:K; [|destruct H]. apply keymaster_cert_b_iff in K.
+        destruct H as [<-|[]]. eapply P_km_cert; eauto.
+      * destruct (ip_cert_ok_b c) eqn:I; [|destruct H]. apply ip_cert_ok_b_iff in I.
+        destruct H as [<-|[]]. eapply P_ip_cert; eauto.
+      * destruct (keymaster_cert_b c && ip_cert_ok_b c) eqn:KI; [|destruct H].
+        apply andb_true_iff in KI. destruct KI as [K I]. apply keymaster_cert_b_iff in K. apply ip_cert_ok_b_iff in I.
+        destruct H as [<-|[]]. eapply P_both; eauto.
+  - assert (NB : forall c, names_somebody st c -> u = c_cn c -> (c_cn c =? u) && negb (bs_eqb (s_name st u) []) = true).
+    { intros c NS ->. rewrite N.eqb_refl. simpl. apply negb_true_iff, bs_eqb_neq. exact NS. }
+    intros [w C V U L|b B O E U L|c TL NS K U L|c TL NS I U L|c TL NS K I U L].
+    + left. rewrite C. apply valid_session_b_iff in V. rewrite V. subst u. rewrite N.eqb_refl. simpl. auto.
+    + right. left. rewrite B, O, E. subst u. rewrite N.eqb_refl. simpl. auto.
+    + right. right. rewrite TL, (NB c NS U). apply keymaster_cert_b_iff in K. rewrite K.
+      rewrite !in_app_iff. left. simpl. auto.
+    + right. right. rewrite TL, (NB c NS U). apply ip_cert_ok_b_iff in I. rewrite I.
+      rewrite !in_app_iff. right. left. simpl. auto.
+    + right. right. rewrite TL, (NB c NS U). apply keymaster_cert_b_iff in K. apply ip_cert_ok_b_iff in I.
+      rewrite K, I. rewrite !in_app_iff. right. right. simpl. auto.
+Qed.
+
+Theorem entitled_iff st now q u :
+  entitled st now q u = true <->
+  (s_sealed st = false /\ q_method q = HPost /\ q_target q = s_name st u /\
+   exists level, proves st now q u level /\ qualifies (s_cfg st) level).
+Proof.
+  unfold entitled. rewrite !andb_true_iff, negb_true_iff, bs_eqb_eq, existsb_exists. split.
+  - intros [[[S M] T] [level [I Q]]]. repeat split; auto.
+    + destruct (q_method q); try discriminate; reflexivity.
+    + exists level. split; [apply proved_levels_iff; exact I|apply sufficient_iff; exact Q].
+  - intros [S [M [T [level [P Q]]]]]. repeat split; auto.
+    + rewrite M. reflexivity.
+    + exists level. split; [apply proved_levels_iff; exact P|apply sufficient_iff; exact Q].
+Qed.
+
+(* the model's handler never violates it: an issued certificate is for an entitled user (this is
+   c01_sound through the decision procedure; the case files evaluate `entitled` on OBSERVED answers) *)
+Theorem issued_entitled expand st now lim q u c :
+  certgen expand st now lim q = Issued u c -> entitled st now q u = true.
+Proof.
+  intro H. apply entitled_iff. apply certgen_sound in H. tauto.
 Qed.
